@@ -290,4 +290,34 @@ def admittedOf : List Resp → List (Nat × Nat) → List Nat
   | r :: rs, (_, n) :: ops => (if r = .ok then n else 0) :: admittedOf rs ops
   | _, _ => []
 
+/-! ### histories with per-request rate sets (`ExtractRates`) -/
+
+/-- a request whose rate extractor yields `rates` (`[]` = none / empty ⇒ the default rates) -/
+structure ReqR where
+  t : Nat
+  src : String
+  amount : Nat
+  rates : List Rate
+  victim : String
+deriving Repr, DecidableEq
+
+def Limiter.runR (l : Limiter) : List ReqR → List Resp
+  | [] => []
+  | r :: rs => (l.serve r.t r.src r.amount r.rates r.victim).2 :: Limiter.runR (l.serve r.t r.src r.amount r.rates r.victim).1 rs
+
+def Limiter.decisionsForR (s : String) (l : Limiter) : List ReqR → List Resp
+  | [] => []
+  | r :: rs =>
+    if r.src = s then (l.serve r.t r.src r.amount r.rates r.victim).2 :: Limiter.decisionsForR s (l.serve r.t r.src r.amount r.rates r.victim).1 rs
+    else Limiter.decisionsForR s (l.serve r.t r.src r.amount r.rates r.victim).1 rs
+
+def Limiter.sparesR (s : String) (l : Limiter) : List ReqR → Prop
+  | [] => True
+  | r :: rs => (r.src ≠ s → l.evictsAt r.t r.src = true → r.victim ≠ s) ∧
+      Limiter.sparesR s (l.serve r.t r.src r.amount r.rates r.victim).1 rs
+
+def Limiter.noEvictR (l : Limiter) : List ReqR → Prop
+  | [] => True
+  | r :: rs => l.evictsAt r.t r.src = false ∧ Limiter.noEvictR (l.serve r.t r.src r.amount r.rates r.victim).1 rs
+
 end RL
